@@ -203,6 +203,16 @@ class Resolver:
             return Binding("unknown", target=ast.unparse(expr) if parts else None)
         ns = self.namespace(module.name)
         if parts[0] not in ns:
+            if parts[0] in ("numpy", PACKAGE):
+                # canonicalised alias in a provenance expression (np -> numpy)
+                binding = Binding("module", target=parts[0])
+                for attr in parts[1:]:
+                    binding = self._getattr(binding, attr)
+                    if binding.kind == "unknown":
+                        return binding
+                if binding.kind == "lazy":
+                    binding = self.lookup(binding.target)
+                return binding
             return Binding("unknown", target=".".join(parts))
         binding = ns[parts[0]]
         for attr in parts[1:]:
